@@ -17,6 +17,7 @@ import (
 	"strings"
 	"time"
 
+	"github.com/Cloud-Foundations/keymaster/lib/authenticators/okta"
 	"github.com/Cloud-Foundations/keymaster/vf/vclock"
 	"github.com/Cloud-Foundations/keymaster/vf/vfeng"
 )
@@ -111,6 +112,17 @@ func c17Destinations() []string {
 			add("/x/../" + e + b)
 		}
 	}
+	// dot segments INSIDE the query (or fragment): harmless as long as nobody cleans the
+	// destination as a whole, query included
+	for _, q := range []string{"/?", "/p?x", "/?a=b&c", "/#", "/p#f", "/a/b?"} {
+		for _, up := range []string{"/../", "/../../", "/../../../", "/..;/../", "/%2e%2e/"} {
+			for _, lead := range []string{"\\", "/", "\\\\", "\t/", ""} {
+				for _, b := range c17Bodies {
+					add(q + up + lead + b)
+				}
+			}
+		}
+	}
 	// ordinary destinations (liveness)
 	for _, s := range c17Good() {
 		add(s)
@@ -203,6 +215,24 @@ func c17Sites() []c17Site {
 			return vfReq{Method: "GET", Path: redirectPath, Form: url.Values{"state": {st}, "code": {"code-alice"}}, Cookies: []*http.Cookie{ck}}.Build()
 		}},
 	}
+}
+
+// c17OktaSite: the Okta OTP endpoint needs a daemon whose password backend is Okta
+// (fake Okta, c16okta.go), so it gets a world of its own per destination.
+func c17OktaSite() c17Site {
+	return c17Site{Name: "okta-otp", Func: "Okta2FAuthHandler",
+		Prep: func(w *vfWorld) {
+			http.DefaultClient.Transport = vfFakeOkta{}
+			pa, err := okta.NewPublicTesting("https://okta.invalid/api/v1/authn", logger)
+			vfMust(err)
+			w.state.passwordChecker = pa
+			w.state.Config.Okta.Enable2FA = true
+			w.Do(vfReq{Method: "POST", Path: "/api/v0/login", Form: url.Values{"username": {"alice"}, "password": {"alice-okta-pw"}}}.Build())
+		},
+		Run: func(w *vfWorld, d string) *http.Request {
+			ck := w.vfCookie("alice", AuthTypePassword)
+			return vfReq{Method: "POST", Path: okta2FAauthPath, Header: map[string]string{"Accept": "text/html"}, Cookies: []*http.Cookie{ck}, Form: url.Values{"OTP": {"123456"}, "login_destination": {d}}}.Build()
+		}}
 }
 
 type c17Point struct {
@@ -428,7 +458,7 @@ func init() {
 	vfRegister(&vfeng.Check{
 		ID:    "C17",
 		Level: "model_checking",
-		Rule:  "exhaustive destination grammar (every prefix of length <=3 over 14 symbols, every C0 control and 9 non-printable Unicode runes at positions 0-2, scheme-like prefixes, absolute URLs starting with this server's own origin text followed by 13 authority-changing tails) x 4 bodies, plus every prefix of length <=2 x 4 bodies x 10 tails that force URL re-serialisation (invalid path characters, broken escapes), plus 9 dot-segment heads x every prefix of length <=2 x 4 bodies, plus 25 encoded spellings of slash / backslash / TAB (HTML character references, JS escapes, double percent-encoding, overlong UTF-8) in 5 positions x 4 bodies, x every driven redirect site (login form/query/GET, TOTP, bootstrap OTP, VIP OTP, federated callback) on the real handlers' success paths; Location (as net/http puts it on the wire; conformance-checked through a real http.Server) resolved with WHATWG rules must stay on keymasterd's origin; plus every site x 10 accepted destinations x {host_identity configured, derived from the host name} x request Host {absent, own, own:443, alias, own:8443}; plus every single-request site with the destination field absent / empty / ordinary x {as sent, as GET with the form in the query} x Referer {none, same site, foreign, scheme-relative foreign} x Origin {none, foreign}; class = (site, outcome, destination class)",
+		Rule:  "exhaustive destination grammar (every prefix of length <=3 over 14 symbols, every C0 control and 9 non-printable Unicode runes at positions 0-2, scheme-like prefixes, absolute URLs starting with this server's own origin text followed by 13 authority-changing tails) x 4 bodies, plus every prefix of length <=2 x 4 bodies x 10 tails that force URL re-serialisation (invalid path characters, broken escapes), plus 9 dot-segment heads x every prefix of length <=2 x 4 bodies, plus 25 encoded spellings of slash / backslash / TAB (HTML character references, JS escapes, double percent-encoding, overlong UTF-8) in 5 positions x 4 bodies, plus dot segments inside the query or fragment (6 heads x 5 climbs x 5 leads x 4 bodies), x every driven redirect site (login form/query/GET, TOTP, bootstrap OTP, VIP OTP, Okta OTP against a fake Okta, federated callback) on the real handlers' success paths; Location (as net/http puts it on the wire; conformance-checked through a real http.Server) resolved with WHATWG rules must stay on keymasterd's origin; plus every site x 10 accepted destinations x {host_identity configured, derived from the host name} x request Host {absent, own, own:443, alias, own:8443}; plus every single-request site with the destination field absent / empty / ordinary x {as sent, as GET with the form in the query} x Referer {none, same site, foreign, scheme-relative foreign} x Origin {none, foreign}; class = (site, outcome, destination class)",
 		Assumptions: []string{"browser URL resolution is modelled by the WHATWG subset in whatwg.go", "net/http's header sanitisation (CR/LF to space, trim) is applied to recorder output and validated against a real http.Server on loopback for a sample of points and for every violation"},
 		Bounds: func(tier string) map[string]interface{} {
 			return map[string]interface{}{"destinations": len(c17Destinations()), "sites": len(c17Sites())}
@@ -498,6 +528,31 @@ func init() {
 					}
 				}
 			}
+			// the Okta OTP endpoint, in a world of its own per destination
+			{
+				site := c17OktaSite()
+				driven[site.Func] = true
+				for _, d := range dests {
+					i++
+					if !c.Mine(i) {
+						continue
+					}
+					ow := c17World()
+					site.Prep(ow)
+					v, key, what, class, herr := c17RunPoint(ow, site, d, false)
+					ow.Close()
+					c.Eval(1)
+					if herr != "" {
+						c.Res.HarnessErr = herr
+						return
+					}
+					if v {
+						c.Violate(key, what, c17Point{Site: site.Name, Dest: d})
+					} else {
+						c.Class(class, c17Point{Site: site.Name, Dest: d})
+					}
+				}
+			}
 			// the destination field absent or empty while other request-controlled values
 			// (Referer, Origin, method) name another site
 			for _, site := range sites {
@@ -563,7 +618,10 @@ func init() {
 			}
 			w := c17World()
 			defer w.Close()
-			for _, s := range c17Sites() {
+			for _, s := range append(c17Sites(), c17OktaSite()) {
+				if s.Prep != nil && s.Name == p.Site {
+					s.Prep(w)
+				}
 				if s.Name == p.Site {
 					v, key, what, class, herr := c17RunPoint(w, s, p.Dest, true)
 					return v, key + " :: " + what + class + herr
